@@ -19,6 +19,7 @@ import (
 //	           limitMode  0 requiredMoveGas+arg | 1 maxGasLimitPerBlock+arg
 //	           nonceMode  0 equal | 1 lower | 2 +1 | 3 +7
 //	           Fault=get_error, FaultAt=n: the n-th disk read inside ProcessTransaction fails
+//	           Fault=save_error, FaultAt=n: the n-th AccountsAdapter.SaveAccount call inside ProcessTransaction fails (0 sender, 1 receiver)
 //	redo     I=[back]                 re-submit the back-th most recent transaction OBJECT built by a tx step, unchanged (same hash)
 //	newBlockAttempt                   abandon everything since the last commit: RevertToSnapshot(0) + fee handler CreateBlockStarted
 //	dropLastMiniblock I=[k]           drop the k (1-3) most recent executed transactions: RevertToSnapshot(before them) + RevertFees(their hashes)
@@ -34,9 +35,13 @@ const (
 
 func genC23(r *simkit.Rand, tier string) *simkit.Plan {
 	p := &simkit.Plan{Arm: "faultfree", Knobs: map[string]int64{}}
-	if r.Chance(0.4) {
+	switch x := r.Float64(); {
+	case x < 0.35:
 		p.Arm = "get_error"
 		p.Faults = []string{"get_error"}
+	case x < 0.5:
+		p.Arm = "save_error"
+		p.Faults = []string{"save_error"}
 	}
 	pick := func(v ...int64) int64 { return v[r.Intn(len(v))] }
 	minGasPrice := pick(1, 10, 1000000000)
@@ -115,7 +120,7 @@ func genC23(r *simkit.Rand, tier string) *simkit.Plan {
 	pShortfall := r.Float64() * 0.25
 	pData := r.Float64() * 0.5
 	pFault := 0.0
-	if p.Arm == "get_error" {
+	if p.Arm != "faultfree" {
 		pFault = 0.1 + r.Float64()*0.4
 	}
 	pCommit, pRestart, pEpoch := r.Float64()*0.2, r.Float64()*0.12, r.Float64()*0.1
@@ -189,11 +194,17 @@ func genC23(r *simkit.Rand, tier string) *simkit.Plan {
 		st.I = []int64{int64(snd), int64(rcv), vm, vd, pm, pa, lm, la, dataLen, nm}
 		st.S = []string{abs}
 		if r.Chance(pFault) {
-			st.Fault = "get_error"
+			st.Fault = p.Arm
 			st.FaultAt = r.Intn(4)
+			if p.Arm == "save_error" {
+				st.FaultAt = r.Intn(2) // sender's save / receiver's save
+			}
 		}
 		p.Steps = append(p.Steps, st)
 		nLogged++
+		if st.Fault == "save_error" && r.Chance(0.7) {
+			p.Steps = append(p.Steps, simkit.Step{Op: "redo", I: []int64{0}}) // the rejected transaction is retried
+		}
 		if r.Chance(pDrop) {
 			// the coordinator cannot keep the last miniblock: drop its 1-3 transactions by hash, maybe run them again
 			k := r.Range(1, 3)
